@@ -721,7 +721,18 @@ class MementoFunctionHashRule(HashRule):
         # pointing to a memento function is now pointing to something else, or even undefined
         # so detect if that happened, else return `False`.
         new_fn = self.resolver()
-        return not isinstance(new_fn, MementoFunctionType)
+        # Memento functions may be wrapped by decorators (see `try_resolve`)
+        while not isinstance(new_fn, MementoFunctionType) and hasattr(
+            new_fn, "__wrapped__"
+        ):
+            new_fn = new_fn.__wrapped__
+        if not isinstance(new_fn, MementoFunctionType):
+            return True
+        # The symbol may also have been re-bound to another memento function since this rule
+        # was created. In particular, the version of a re-defined function is first computed
+        # while it is being registered, when its own name (or a name on a reference cycle through
+        # it) still resolves to the definition that is about to be replaced.
+        return new_fn is not self.memento_fn
 
     def __repr__(self):
         return f"MementoFunctionHashRule(key={repr(self.key)})"
